@@ -913,7 +913,7 @@ func c18CloseGen(r *rand.Rand, thorough bool, emit func(c, cat string)) {
 	}
 	n := 60
 	if thorough {
-		n = 1500
+		n = 700
 	}
 	for i := 0; i < n; i++ {
 		k := kinds[r.Intn(len(kinds))]
@@ -952,7 +952,7 @@ func c18CloseGen(r *rand.Rand, thorough bool, emit func(c, cat string)) {
 			case x < 14:
 				ops = append(ops, "c"+strconv.Itoa(e))
 			case x < 15:
-				if timers == 0 && (thorough || i%6 == 0) {
+				if timers == 0 && ((thorough && i%4 == 0) || i%6 == 0) {
 					ops = append(ops, "t")
 					timers++
 				} else {
